@@ -4,7 +4,7 @@
    evaluated in 64 bits).  Specification/oracle: C09/Spec_C09.v. *)
 From Coq Require Import ZArith List Bool.
 From F8 Require Import C09.DateTime C09.Spec_C09 C09.CalendarSweeps C09.DigitProofs C09.PrintProofs
-  C09.ParseProofs C09.RoundtripProofs.
+  C09.ParseProofs C09.RoundtripProofs C09.LogProofs.
 Import ListNotations.
 Local Open Scope Z_scope.
 
@@ -24,7 +24,7 @@ Theorem c09_epoch_inverse : forall wide y m d h mi s,
   (wide = true \/ days_from_civil y m d * 86400 + h * 3600 + mi * 60 + s <= INT_MAX) ->
   time_to_epoch_gen wide (mk_tm y m d h mi s) 0 false
   = Some (days_from_civil y m d * 86400 + h * 3600 + mi * 60 + s, false).
-Proof. intros; apply time_to_epoch_valid; assumption. Qed.
+Proof. exact epoch_inverse_lemma. Qed.
 Print Assumptions c09_epoch_inverse.
 
 (* parse_decimal inverts format0: every width, every value that fits the width. *)
@@ -68,3 +68,41 @@ Theorem c09_parse_partial : forall wide k s v, denote k s = Some v -> in_range v
   field_parse_gen wide (mkind k) s = Ticks v false.
 Proof. exact parse_follows_denote. Qed.
 Print Assumptions c09_parse_partial.
+
+(* Log timestamps (GetTimeAsStringMS, gm form; with TZ=UTC also the localtime form): the text shows
+   the calendar fields of the instant with seconds in 00..59 and is less than one unit of the last
+   printed place away from it -- at precision 0 always; at precisions 1..9 whenever the second of
+   the minute is below 59 or the fraction does not round up to a whole second (at nine places it
+   never does).  The seconds value is the binary64 computation (secs%60) + nsecs/1e9 printed by
+   printf, modelled exactly. *)
+Theorem c09_log_partial : forall secs nsecs d, log_in_range secs nsecs d = true ->
+  (d = 0%nat \/ secs mod 60 < 59 \/ 2 * nsecs + 10 ^ (9 - Z.of_nat d) < 2 * NS_SEC) ->
+  c09_log_ok secs nsecs d (log_render secs nsecs d) = true.
+Proof. exact log_partial_lemma. Qed.
+Print Assumptions c09_log_partial.
+
+(* ... and otherwise it can show second 60: 1970-01-01 00:00:59.9999996 at six places is printed
+   as "1970-01-01 00:00:60.000000" (finding F16). *)
+Theorem c09_log_seconds_refuted : exists secs nsecs d, log_in_range secs nsecs d = true /\
+  log_seconds d (log_render secs nsecs d) = Some 60 /\ c09_log_ok secs nsecs d (log_render secs nsecs d) = false.
+Proof. exact log_seconds_refuted_lemma. Qed.
+Print Assumptions c09_log_seconds_refuted.
+
+(* Non-vacuity: 2000-02-29T23:59:59.999 meets the hypotheses of c09_roundtrip_partial and yields the
+   expected texts "20000229-23:59:59.999", "23:59:59.999", "20000229", "20000229", "200002",
+   "20000229" with their components; "2000-02-29 23:59:59.500000" meets those of c09_log_partial. *)
+Theorem c09_nonvacuous :
+  0 <= 951868799999000000 < 2147483648 * NS_SEC /\
+  observe (roundtrip 951868799999000000) =
+    [([50; 48; 48; 48; 48; 50; 50; 57; 45; 50; 51; 58; 53; 57; 58; 53; 57; 46; 57; 57; 57], Some 951868799999000000);
+     ([50; 51; 58; 53; 57; 58; 53; 57; 46; 57; 57; 57], Some 86399999000000);
+     ([50; 48; 48; 48; 48; 50; 50; 57], Some 951782400000000000);
+     ([50; 48; 48; 48; 48; 50; 50; 57], Some 951782400000000000);
+     ([50; 48; 48; 48; 48; 50], Some 949363200000000000);
+     ([50; 48; 48; 48; 48; 50; 50; 57], Some 951782400000000000)] /\
+  log_in_range 951868799 499999999 6 = true /\
+  2 * 499999999 + 10 ^ (9 - Z.of_nat 6) < 2 * NS_SEC /\
+  log_render 951868799 499999999 6 =
+    [50; 48; 48; 48; 45; 48; 50; 45; 50; 57; 32; 50; 51; 58; 53; 57; 58; 53; 57; 46; 53; 48; 48; 48; 48; 48].
+Proof. exact nonvacuous_lemma. Qed.
+Print Assumptions c09_nonvacuous.
